@@ -714,9 +714,13 @@ func (e *alertEnv) directCases(r *vhlib.Rng, sum *vhlib.Summary, out string, tho
 		hl := r.Range(0, 5)
 		hist := make([]int, hl) // oldest first
 		for i := range hist {
-			hist[i] = vhlib.Pick(r, []int{0, 1, 2, 2, 3, 3, 3})
-			_, err := e.db.CreateAlertHistory(&alertutils.AlertHistoryDetails{AlertId: ad.AlertId, AlertType: 1, AlertState: alertutils.AlertState(hist[i]),
-				EventDescription: "x", UserName: "u", EventTriggeredAt: time.Now().UTC()})
+			hist[i] = vhlib.Pick(r, []int{0, 1, 2, 2, 3, 3, 3, 4, 4}) // 4 = row of a config change
+			row := &alertutils.AlertHistoryDetails{AlertId: ad.AlertId, AlertType: 1, AlertState: alertutils.AlertState(hist[i]),
+				EventDescription: "x", UserName: "u", EventTriggeredAt: time.Now().UTC()}
+			if hist[i] == 4 {
+				row.AlertState, row.EventDescription, row.UserName = alertutils.Inactive, alertutils.ConfigChange, alertutils.UserModified
+			}
+			_, err := e.db.CreateAlertHistory(row)
 			if err != nil {
 				return err
 			}
